@@ -294,7 +294,19 @@ func runFED07(r *core.Run) {
 		}
 		if m == nil && len(cands) > 0 && e.requiresInputNulled(q, cands) {
 			requiresNull = true
-			r.Fail(prop, "fabricated-request", "requires-input-null", "after the fetch of a @requires input failed, the dependent request was still sent with the input set to null (the subgraph then computes from a value that does not exist)\nrequest: s%d %s vars=%s\n%s\n%s", q.sub, q.query, q.vars, ctxMsg, e.describe())
+			key := "requires-input-null"
+			onlyTransport := true
+			for _, fq := range failed {
+				if fq.fault != "transport" {
+					onlyTransport = false
+				}
+			}
+			if onlyTransport {
+				// after a transport error the loader does skip the dependants of the failed fetch
+				// (transitively); a nulled input is not the known finding then
+				key = "requires-input-null-after-transport-error"
+			}
+			r.Fail(prop, "fabricated-request", key, "after the fetch of a @requires input failed, the dependent request was still sent with the input set to null (the subgraph then computes from a value that does not exist)\nrequest: s%d %s vars=%s\n%s\n%s", q.sub, q.query, q.vars, ctxMsg, e.describe())
 			continue
 		}
 		if m == nil {
@@ -388,9 +400,11 @@ func runFED07(r *core.Run) {
 		}
 		refA, _ := e.monolith(op, op.Query, mask(true))
 		refB, _ := e.monolithMode(op, op.Query, mask(false), true)
-		var a, b, f any
+		refC, _ := e.monolithMode3(op, op.Query, mask(false), false, true)
+		var a, b, c, f any
 		_ = json.Unmarshal([]byte(mustJSON(refA.Data)), &a)
 		_ = json.Unmarshal([]byte(mustJSON(refB.Data)), &b)
+		_ = json.Unmarshal([]byte(mustJSON(refC.Data)), &c)
 		if sF.data == "absent" {
 			f = nil
 		} else {
@@ -402,13 +416,13 @@ func runFED07(r *core.Run) {
 				transportFailed = true
 			}
 		}
-		if !matchEither(f, a, b) && o.multiFetch && transportFailed && isNulling(f, a) {
+		if !matchAny(f, a, b, c) && o.multiFetch && transportFailed && (isNulling(f, b) || isNulling(f, c)) {
 			// known finding: after a transport error the loader skips dependants per fetch id; a
 			// merged multi-entity fetch depends on the union of its members' dependencies, so the
 			// whole merged request is skipped and members that never depended on the failed fetch
 			// lose their data as well
 			r.Fail(prop, "isolation", "multifetch-overnulling-after-transport-error", "with MultiFetch enabled, data that does not depend on the failed request was nulled\n%s\nfault-free: %s\nunder faults: %s\nexpected:    %s\n%s", ctxMsg, s0.data, sF.data, canonJSON(mustJSON(refA.Data)), e.describe())
-		} else if !matchEither(f, a, b) {
+		} else if !matchAny(f, a, b, c) {
 			r.Fail(prop, "isolation", "", "data under faults is not the fault-free data with exactly the dependent parts null-propagated\n%s\nfault-free: %s\nunder faults: %s\nexpected:    %s\nor:          %s\nfailed positions: %v\nhealthy positions: %v\n%s", ctxMsg, s0.data, sF.data, canonJSON(mustJSON(refA.Data)), canonJSON(mustJSON(refB.Data)), sortedStrings(failPos), sortedStrings(okPos), e.describe())
 		}
 		if canonValue(a) != canonValue(b) {
@@ -757,11 +771,82 @@ func repEqualModuloNull(a, b string) bool {
 		if canonValue(va) == canonValue(vb) {
 			continue
 		}
-		if va == nil && k != "id" && k != "__typename" {
-			diff = true
-			continue
+		if k != "id" && k != "__typename" {
+			// the input is null, or (through a chain of @requires fields) a value computed from null
+			if sa, isStr := va.(string); va == nil || (isStr && strings.Contains(sa, "(null)")) {
+				diff = true
+				continue
+			}
 		}
 		return false
 	}
 	return diff
+}
+
+// matchAny: position by position, f takes the value of one of the admissible outcomes. An outcome
+// that is null at some position admits null at every position below it (null propagation stops at
+// different ancestors in different outcomes).
+func matchAny(f any, alts ...any) bool {
+	for _, a := range alts {
+		if canonValue(f) == canonValue(a) {
+			return true
+		}
+	}
+	hasNull := false
+	for _, a := range alts {
+		if a == nil {
+			hasNull = true
+		}
+	}
+	switch fv := f.(type) {
+	case map[string]any:
+		var maps []map[string]any
+		for _, a := range alts {
+			if m, ok := a.(map[string]any); ok && len(m) == len(fv) {
+				maps = append(maps, m)
+			}
+		}
+		if len(maps) == 0 {
+			return false
+		}
+		for k, v := range fv {
+			var sub []any
+			if hasNull {
+				sub = append(sub, nil)
+			}
+			for _, m := range maps {
+				if x, ok := m[k]; ok {
+					sub = append(sub, x)
+				}
+			}
+			if len(sub) == 0 || !matchAny(v, sub...) {
+				return false
+			}
+		}
+		return true
+	case []any:
+		var lists [][]any
+		for _, a := range alts {
+			if l, ok := a.([]any); ok && len(l) == len(fv) {
+				lists = append(lists, l)
+			}
+		}
+		if len(lists) == 0 {
+			return false
+		}
+		for i, v := range fv {
+			var sub []any
+			if hasNull {
+				sub = append(sub, nil)
+			}
+			for _, l := range lists {
+				sub = append(sub, l[i])
+			}
+			if !matchAny(v, sub...) {
+				return false
+			}
+		}
+		return true
+	}
+	return false
 }
